@@ -27,6 +27,7 @@ type c15Rule struct {
 type c15Case struct {
 	ClusterParent bool
 	Rules         []c15Rule
+	OtherFirst    bool // a second controller with its own customize hook (other rules) looks at the same parent first
 }
 
 func c15RuleJSON(r c15Rule) kit.M {
@@ -153,6 +154,28 @@ func c15Run(c c15Case) []mc.Finding {
 	w.Hooks.Handle("/cc/finalize", answer)
 	w.DeliverAll()
 	key := parentKey(pns, "p")
+	if c.OtherFirst {
+		// same parent object (same UID, same generation), another hosted controller, other customize rules: what
+		// it learns must not leak into this controller's view
+		w2, err := attachComposite(w.Base, ccOpt{name: "c2", parent: pk, children: []*sim.Kind{kit.Leaf}, generateSel: true, customize: true}, true)
+		if err != nil {
+			bad("setup", "second controller: %v", err)
+			return f
+		}
+		w.Hooks.Handle("/c2/customize", world.JSON(func(req map[string]interface{}) interface{} {
+			return kit.M{"relatedResources": kit.L{kit.M{"apiVersion": "v1", "resource": "others", "namespace": "n1", "names": kit.L{"only-the-other-controller-wants-this"}}}}
+		}))
+		w.Hooks.Handle("/c2/sync", world.JSON(func(req map[string]interface{}) interface{} { return kit.M{"children": kit.L{}} }))
+		for i := 0; i < 2; i++ {
+			if err, p, stack := w2.syncKey(key); err != nil || p != nil {
+				bad("setup", "second controller sync: %v %v %s", err, p, stack)
+				return f
+			}
+			w.DeliverAll()
+		}
+		w.Hooks.Reset()
+		w.Q.Clear()
+	}
 	want, wantGroups, invalid := c15Expected(c)
 	count := func(path string) int {
 		n := 0
@@ -308,6 +331,10 @@ func TestVerifC15(t *testing.T) {
 				if idx%101 == 0 {
 					r.Sample(c)
 				}
+				c2 := c
+				c2.OtherFirst = true
+				r.Case(c2, fmt.Sprint(idx)+"+other", func() []mc.Finding { return c15Run(c2) })
+				r.Outcome("other-first:" + c15Outcome)
 			}
 		}
 	}
